@@ -11,6 +11,35 @@ theorem inv_init (c : Cfg) (hout : c.dtorOutside = true) (hnw : 0 < c.nw) (hnt :
   all_goals (try (simp; done))
   all_goals inv_grind
 
+set_option maxHeartbeats 4000000 in
+theorem inv_waitSkip {c : Cfg} {s : State} {t : Nat} {rest : List Act} (h : Inv c s) :
+    Inv c { s with todo := upd s.todo t rest } := by
+  inv_step h
+
+set_option maxHeartbeats 4000000 in
+theorem inv_setFlag {c : Cfg} {s : State} {t f : Nat} {rest : List Act} (h : Inv c s) :
+    Inv c { s with todo := upd s.todo t rest, flag := upd s.flag f true } := by
+  inv_step h
+
+set_option maxHeartbeats 4000000 in
+theorem inv_waitBlock {c : Cfg} {s : State} {t f : Nat} {rest : List Act} (h : Inv c s) (hpc : s.pc t = Pc.idle) :
+    Inv c { s with todo := upd s.todo t rest, pc := upd s.pc t (Pc.waitFlag f) } := by
+  have hdq : s.dq t = [] := by
+    have := h.l_dqpc t; grind [Pc.inStop]
+  have htm : s.tmp t = [] := by
+    have := h.s_tmp_pc t; grind
+  inv_step h
+
+set_option maxHeartbeats 4000000 in
+theorem inv_waitPass {c : Cfg} {s : State} {t f : Nat} (h : Inv c s) (hpc : s.pc t = Pc.waitFlag f) :
+    Inv c (setPc s t Pc.idle) := by
+  have hdq : s.dq t = [] := by
+    have := h.l_dqpc t; grind [Pc.inStop]
+  have htm : s.tmp t = [] := by
+    have := h.s_tmp_pc t; grind
+  unfold setPc
+  inv_step h
+
 theorem inv_step {c : Cfg} {s : State} (h : Inv c s) (t k : Nat) (hen : enabled s t = true) :
     Inv c (step c s t k).1 := by
   unfold step
@@ -30,7 +59,12 @@ theorem inv_step {c : Cfg} {s : State} (h : Inv c s) (t k : Nat) (hen : enabled 
     · split
       · exact inv_destroySkip h
       · exact inv_stopCS h hpc
+    · split
+      · exact inv_waitSkip h
+      · exact inv_waitBlock h hpc
+    · exact inv_setFlag h
   · rename_i j acc hpc; exact inv_afterEnq h hpc
+  · rename_i f hpc; exact inv_waitPass h hpc
   · rename_i hpc; exact inv_stopJoin h hpc
   · rename_i hpc; exact inv_joinBlocked h hpc hen
   · rename_i hpc; exact inv_stopDrop h hpc
